@@ -50,6 +50,7 @@ class SecsIPeer:
         self.tx_queue: list = []      # blocks (bytes) waiting to be sent
         self.tx_results: list = []    # (block bytes, "ack"/"nak"/other)
         self.nak_next = False
+        self.abandon_on_nak = True
         self.on_idle = None
         line.sinks[port] = self._on_bytes
 
@@ -118,6 +119,9 @@ class SecsIPeer:
                 progress = True
                 blk = self.tx_queue.pop(0)
                 self.tx_results.append((blk, "ack" if b == rc.ACK else "nak" if b == rc.NAK else f"{b:#x}"))
+                if b != rc.ACK and self.abandon_on_nak:
+                    # no RTY in the property: a refused transfer is abandoned, the remaining blocks are not sent
+                    self.tx_queue.clear()
                 self.state = "idle"
         if self.state == "idle" and not self.buf:
             self._kick()
